@@ -66,3 +66,23 @@
         assert(m.values().filter(p1) =~= self.valid_nodes());
         assert(m.values().filter(p2) =~= self.valid_below());
     }
+@@ InnerNodeManage::clear_timeout_process_range external
+@@ InnerNodeManage::clear_timeout_process_range spec
+    // assumed (T7): `for (range, t) in &self.history_ranges` — tuple pattern over a Vec of tuples; only the history list changes
+    ensures final(self).all_nodes@ == old(self).all_nodes@, final(self).local_id == old(self).local_id,
+        final(self).current_range == old(self).current_range,
+@@ InnerNodeManage::update_process_range spec
+    requires old(self).nodes_wf(), old(self).all_nodes@.dom().len() < 0x1_0000_0000
+    // C14: after the call the range this node answers with is the one its current view of the cluster gives
+    ensures final(self).all_nodes@ == old(self).all_nodes@, final(self).local_id == old(self).local_id,
+        final(self).range_in_sync(),
+@@ InnerNodeManage::update_process_range exit
+    proof { assert(self.range_in_sync()); }
+@@ InnerNodeManage::check_node_status spec
+    requires old(self).nodes_wf(), old(self).all_nodes@.dom().len() < 0x1_0000_0000
+    // C14: every periodic check leaves the range in sync with the view, whatever the statuses were before
+    // (a peer that answered a ping again was set Valid by active_node / node_add_client without recomputing the range)
+    ensures final(self).range_in_sync(), final(self).local_id == old(self).local_id, final(self).nodes_wf(),
+        final(self).all_nodes@.dom() == old(self).all_nodes@.dom(),
+@@ InnerNodeManage::check_node_status havoc_loop 1
+        vx_check_nodes_loop(&mut self.all_nodes, naming_actor, timeout);
